@@ -3,7 +3,8 @@
 
   Model: `Demeter.Aave` (the five `DictCache`s are part of the state, every public read is an operation that may
   fill caches, every write resets what the code resets — `/repo/demeter/aave/market.py` after the repairs
-  304deb1 `change_collateral` resets `_supplies_cache`, 07ef1e2 `withdraw` undoes its trial deduction).
+  304deb1 `change_collateral` resets `_supplies_cache`, 07ef1e2 `withdraw` undoes its trial deduction,
+  c25cbec a cache is filled only after every entry could be computed).
   Spec: `specView` (`Demeter/Aave/Spec.lean`) — pure functions of `_supplies`, `_borrows`, the bar's indices,
   rates, prices and the risk table; no cache involved.
 
